@@ -21,7 +21,7 @@ pub(crate) struct SystemEventAccessTracker
     data_entity: Entity,
 
     /// Information cached for when the system actually runs.
-    prepared: Vec<(SystemCommand, Entity)>,
+    prepared: Vec<(u64, Entity)>,
 }
 
 impl SystemEventAccessTracker
@@ -30,16 +30,16 @@ impl SystemEventAccessTracker
     pub(crate) fn verif_state(&self) -> (usize, bool) { (self.prepared.len(), self.currently_reacting) }
 
     /// Caches metadata for a system event.
-    pub(crate) fn prepare(&mut self, system: SystemCommand, data_entity: Entity)
+    pub(crate) fn prepare(&mut self, ticket: u64, data_entity: Entity)
     {
-        self.prepared.push((system, data_entity));
+        self.prepared.push((ticket, data_entity));
     }
 
     /// Sets metadata for the current entity reaction.
-    pub(crate) fn start(&mut self, reactor: SystemCommand)
+    pub(crate) fn start(&mut self, ticket: u64)
     {
-        let Some(pos) = self.prepared.iter().position(|(s, _)| *s == reactor) else {
-            tracing::error!("prepared system event is missing {:?}", reactor);
+        let Some(pos) = self.prepared.iter().position(|(t, _)| *t == ticket) else {
+            tracing::error!("prepared system event is missing for ticket {:?}", ticket);
             debug_assert!(false);
             return;
         };
